@@ -31,7 +31,7 @@ func init() {
 			"the unlimited run is made under a never-cancelled context so that steps are counted (the step counter is only live when a context or a budget is configured)",
 			"when an error-swallowing form intercepts the limit error the final outcome is not compared, only that nothing further happened (no probe beyond the budget)",
 			"an uncancelled request does the same (probe trace, outcome) whatever context its functions were defined under; a request whose own context is alive does not end in context-cancelled because a context of an earlier, finished phase is cancelled",
-		"tail-iteration and macro-expansion bounds are checked as 'succeeds at or below the bound, fails beyond bound+1': the exact off-by-one of each counter is not part of the statement",
+			"tail-iteration and macro-expansion bounds are checked as 'succeeds at or below the bound, fails beyond bound+1': the exact off-by-one of each counter is not part of the statement",
 		},
 		Cases:       func(tier string) int { return pick(tier, 420, 9000) },
 		Run:         c04Run,
